@@ -271,7 +271,7 @@ def _worker(pid: str, tier: str, base_seed: int, w: int, jobs: int, budget_s: fl
             break
         h = sched[i % len(sched)]
         seed = stable_hash(base_seed, pid, i)
-        avoid = (i % 5) != 4
+        avoid = stable_hash(base_seed, pid, i, "avoid") % 5 != 0  # hashed: independent of the harness round-robin
         r = run_one(h, seed, None, avoid)
         out["runs"] += 1
         out["per_harness"][h.name] += 1
